@@ -241,8 +241,32 @@ func c11Workers(r *hx.Run, cs c11Case, bin string) {
 	r.Case("w"+fmt.Sprint(cs), true)
 }
 
+// a second instance of several checks with another severity (and another String(), or it would be skipped as
+// already enabled): the same problem then arrives from two jobs and differs only in severity
+const c11SecondInstances = `
+rule {
+  label "team" {
+    required = true
+    value    = "infra|a|b"
+    severity = "bug"
+  }
+  annotation "summary" {
+    required = true
+    value    = ".+"
+    severity = "info"
+  }
+  name "^[a-z:]+$" {
+    comment  = "second instance"
+    severity = "bug"
+  }
+}
+`
+
 func c11GenCase(r *hx.Run) c11Case {
 	cs := c11Case{Config: c08AllKinds, Files: map[string]string{}}
+	if r.Rng.Intn(2) == 0 {
+		cs.Config += c11SecondInstances
+	}
 	for i, n := 0, 1+r.Rng.Intn(3); i < n; i++ {
 		cs.Files[fmt.Sprintf("rules/f%d.yml", i)] = enFile(r)
 	}
